@@ -109,6 +109,12 @@ int main(void)
 		} else if (!strcmp(cmd, "PAD")) {
 			ext2fs_set_generic_bmap_padding(bm);
 			printf("V\n");
+		} else if (!strcmp(cmd, "RS")) {
+			sscanf(line, "%*s %llu %llu", &a, &b);
+			if (snap) ext2fs_free_generic_bmap(snap);
+			snap = 0;
+			err = ext2fs_resize_generic_bmap(bm, a, b);
+			if (err) printf("E %d\n", norm_err(err)); else printf("V\n");
 		} else if (!strcmp(cmd, "SNAP")) {
 			if (snap) ext2fs_free_generic_bmap(snap);
 			snap = 0;
